@@ -58,6 +58,7 @@ def hoistStmt (g : CMap) : Stmt → Stmt
   | .return_ v => .return_ (hoistO g v)
   | .assign ts v => .assign ts (hoistE g v)
   | .augAssign tg op v => .augAssign tg op (hoistE g v)
+  | .annAssign tg ann v simple => .annAssign tg (hoistE g ann) (hoistO g v) simple
   | .for_ a tg it body orelse => .for_ a tg (hoistE g it) (hoistBody g body) (hoistBody g orelse)
   | .while_ c body orelse => .while_ (hoistE g c) (hoistBody g body) (hoistBody g orelse)
   | .if_ c body orelse => .if_ (hoistE g c) (hoistBody g body) (hoistBody g orelse)
